@@ -8,6 +8,7 @@ EXPLANATION = (
     "index pruning predicate (overlaps o compare_position, inlined) is implied by `child span shares a base with the query` on "
     "all chromosome x base order types so no intersecting block can be pruned; the query reaches the decoders unchanged; the "
     "decode layout is C10's.")
+EXPLANATION += ' Since the rules were generalised: the index search step, its collector, the block and node caches and the three block iterators are evaluated (finite abstract interpretation over opaque atoms with a mocked node reader / decoder) to visit every node once, yield blocks in stored order, drain each block before the next and yield read errors.'
 UNDECIDED = "behaviour on a concrete file; query-sequence independence beyond the absence of mutable shared state other than the two memo fields and caches."
 ASSUMPTIONS = [K.A_BYTES, K.A_PRED, K.A_TABLE]
 OBLIGATIONS = [K.WIG_KEEP, K.OVERLAPS, K.QUERY_ARGS, K.WIG_BLOCK_R] + K.CIR_READER + [K.READER_COMMON[0]]
